@@ -20,6 +20,14 @@ func c08(c *Check) {
 	n := c.Frozen("C08")
 	c.Extra["frozen_entries"] = n
 
+	c.Rule("C08/slot-path-shape", "the paths the storage slot is derived from are <family>/<src>/<dst>/sequences/<seq as unsigned decimal>: every parameter, in order, the sequence through no number-changing conversion", 2)
+	for fam, name := range map[string]string{"commitments": "PacketCommitmentPath", "acks": "PacketAcknowledgementPath"} {
+		fn := c.F("x/xibc/core/host." + name)
+		sh := c.P.ShapeOfFunc(fn)
+		want := fam + "/⟨s:$0⟩/⟨s:$1⟩/sequences/⟨d:$2⟩"
+		c.Req(sh == want, "C08/slot-path-shape", "host."+name, fn.Pos(), sh, "path shape is "+sh+", required "+want)
+	}
+
 	c.Rule("C08/sibling-agreement", "the ETH and BSC copies of the proof verifier have identical canonical guard sets (a check dropped or loosened in one copy only is a contradiction)", 5)
 	for _, f := range []string{"produceVerificationArgs", "ClientState.VerifyPacketCommitment", "ClientState.VerifyPacketAcknowledgement", "verifyMerkleProof", "checkProofResult"} {
 		ge := guardStrings(c, ethT+f, "eth/types")
